@@ -250,7 +250,14 @@ func TestC15(t *testing.T) {
 		"of C10, C11, C12 (random-instant closes over all eleven endpoint kinds), C13, C14 (client / serial reconnect sequences, servers with many peers) and C16 re-run under the detector; several shards with different GOMAXPROCS. Two iterations out of three run with no hook installed (the hook's mutex would add happens-before edges between library goroutines and hide races from the detector); the others use hook perturbation. distinct = interleaving signatures of the hooked API-mix runs + configurations of the unhooked ones")
 	rep.Assume("each goroutine uses its own frame objects (the API mutates the frame it is given); absence of reports on the schedules run is not absence of races")
 	seed := shardSeed()
-	shard, _ := shardInfo()
+	shard, nsh := shardInfo()
+	if nsh > 1 && shard == nsh-1 {
+		// a child process of its own: a node that lives longer than the library's 30 s housekeeping / re-request period
+		// while several channels take ArduPilot heartbeats
+		c15long(rep)
+		rep.Floor("long_run_over_30s", 1)
+		return
+	}
 	aux := vh.NewReport("C15-aux") // findings of the re-used workloads belong to their own properties
 	prev := gomavlib.VerifSetReconnectPeriod(60 * time.Millisecond)
 	defer gomavlib.VerifSetReconnectPeriod(prev)
@@ -296,10 +303,7 @@ func TestC15(t *testing.T) {
 	}
 	atomic.StoreInt32(&hookOff, 0)
 	fake.SetUnordered(false)
-	if vh.Thorough() && shard == 0 {
-		// a scenario longer than 30 s so that the stream-request cleaner runs against active readers
-		c15long(rep)
-	}
+
 	gomavlib.VerifSetHook(nil)
 	rep.Sample(map[string]interface{}{"api_mix": "4 custom + tcp server, out key, 8 writers x 7 operations, consumer forwards with WriteFrameExcept / FixFrame, Close after 150 ms"})
 	rep.Floor("api_mix_runs", 3)
